@@ -26,7 +26,10 @@ Definition rinit : rst := mkR 0 None 0.
 Inductive rlabel :=
 | ROpen (h : Z)         (* holder h calls Open()  *)
 | RClose (h : Z)        (* holder h calls Close() *)
-| RReq (c : Z).         (* AsyncProcessRequest of request c *)
+| RReq (c : Z)          (* AsyncProcessRequest of request c *)
+| REnv (state : Z).     (* environment: the underlying sink now reports this ChannelState (4 = Closed: it faulted or
+                           was closed); Open/Close do not look at it: holders that close after a fault are still
+                           counted, the last one still closes the underlying sink, the next first Open re-opens it *)
 
 Inductive robs :=
 | UOpen (a : Z)         (* underlying Open() called; it returned result a *)
@@ -46,6 +49,7 @@ Definition rstep (s : rst) (l : rlabel) : rst * list robs :=
         let c := cnt s - 1 in
         if c =? 0 then (mkR c None (nopen s), [UClose]) else (mkR c (ar s) (nopen s), [])
   | RReq c => (s, [UForward c])
+  | REnv _ => (s, [])
   end.
 
 Fixpoint rrun (s : rst) (ls : list rlabel) : rst * list (list robs) :=
@@ -67,6 +71,7 @@ Definition hstep (held : list Z) (l : rlabel) : list Z :=
   | ROpen h => h :: held
   | RClose h => remove1 h held
   | RReq _ => held
+  | REnv _ => held
   end.
 
 Definition hrun (held : list Z) (ls : list rlabel) : list Z := fold_left hstep ls held.
